@@ -623,7 +623,7 @@ def check_more_special(res, which, builder):
     noint = [c for c in Reaction.default_checks if c != "all_integral"]
     bname = "get_odesys" if builder == "get" else "_create_odesys"
     kw_get = dict(include_params=False)
-    pvals = {"ka": 7, "kb": 3}
+    pvals = {"ka": 7, "kb": 3, "F": 2, "cB": 13, "feedratio": 1000, "fc_A": 1000, "fc_B": 1000, "fc_C": 1000}
     tol = 0
     try:
         if which == "text-repeat":
@@ -637,6 +637,25 @@ def check_more_special(res, which, builder):
             conc = {"A": 9, "B": 5, "C": 11, "D": 13}
             exp = {"A": -63, "B": 2.5e-13 * 63, "C": -33, "D": (1 / 3e6) * 33}
             tol = 1e-13
+        elif which == "cstr-tuple":
+            # the stirred-tank terms asked for with the caller's own keys, for one substance only
+            rsys = ReactionSystem([Reaction({"A": 1}, {"B": 1}, MassAction(ESymbol(unique_keys=("ka",)))), Reaction({"B": 1}, {"C": 1}, MassAction(ESymbol(unique_keys=("kb",))))],
+                                  "A B C", substance_factory=Substance)
+            conc = {"A": 9, "B": 5, "C": 11}
+            kw_get = dict(include_params=False, cstr=("F", {"B": "cB"}))
+            r1, r2 = 7 * 9, 3 * 5
+            exp = {"A": -r1, "B": r1 - r2 + 2 * (13 - 5), "C": r2}
+            builder = "get"
+        elif which == "reported-defaults":
+            # named constants that carry stored values, kept free: the builder reports the stored values (extra['unique']); binding the
+            # free symbols to what it reports gives the right-hand side of the inlined build
+            rsys = ReactionSystem([Reaction({"A": 1}, {"B": 1}, MassAction([1.5], unique_keys=["kAB"])),
+                                   Reaction({"B": 1}, {"C": 1}, MassAction([0.25], unique_keys=["kBC"]))], "A B C", substance_factory=Substance)
+            conc = {"A": 9, "B": 5, "C": 11}
+            kw_get = dict(include_params=False)
+            r1, r2 = sympy.Rational(3, 2) * 9, sympy.Rational(1, 4) * 5
+            exp = {"A": -r1, "B": r1 - r2, "C": r2}
+            builder = "get"
         elif which.startswith("zero-bound"):
             val = {"zero-bound:0": 0, "zero-bound:0.0": 0.0, "zero-bound:2": 2, "zero-bound:default": 0.25}[which]
             rsys = ReactionSystem([Reaction({"A": 1}, {"B": 1}, MassAction([1.5], unique_keys=["ka"])),
@@ -656,7 +675,9 @@ def check_more_special(res, which, builder):
             conc = {"A": 9, "B": 5, "C": 11}
             r1, r2 = 2 * 7 * 9, 4 * 3 * 5
             exp = {"A": -r1, "B": r1 - r2, "C": r2}
-        odesys = (get_odesys(rsys, **kw_get) if builder == "get" else _create_odesys(rsys))[0]
+        odesys, extra_ = (get_odesys(rsys, **kw_get) if builder == "get" else _create_odesys(rsys))[:2]
+        if which == "reported-defaults":
+            pvals = {k_: v_ for k_, v_ in dict(extra_["unique"]).items() if v_ is not None}
         bind = {d: conc[n] for d, n in zip(odesys.dep, odesys.names)}
         bind[odesys.indep] = 1000
         for sym, pn in zip(odesys.params, odesys.param_names):
@@ -833,7 +854,7 @@ def run_chunk(chunk, tier):
             for which in ("order1/2", "order3/2", "order0.5", "time-key"):
                 for builder in ("get", "create"):
                     check_special_systems(res, which, builder)
-            for which in ("text-repeat", "tiny-coeff", "zero-bound:0", "zero-bound:0.0", "zero-bound:2", "zero-bound:default", "subclass"):
+            for which in ("reported-defaults", "cstr-tuple", "text-repeat", "tiny-coeff", "zero-bound:0", "zero-bound:0.0", "zero-bound:2", "zero-bound:default", "subclass"):
                 for builder in ("get", "create"):
                     check_more_special(res, which, builder)
         if i == 1:
